@@ -234,6 +234,19 @@ func TestVerifC16ProxySched(t *testing.T) {
 		shapes = append(shapes, [][]int{{0, 2}, {0, 1}, {1, 0}}, [][]int{{0}, {0}, {0}, {0}}, [][]int{{0}, {1}, {2}, {3}}, [][]int{{0, 0}, {0}, {0}, {1}})
 		capSets = append(capSets, c16Caps{2, 2, -1}, c16Caps{-1, 2, 3}, c16Caps{1, 1, 1})
 	}
+	// many evictors at once (the quantifier's upper range): one eviction each on the same node, low preemption bound
+	type manyT struct{ n, b int }
+	many := []manyT{{5, 1}, {6, 0}}
+	if env.Thorough() {
+		many = []manyT{{5, 2}, {6, 1}, {8, 0}}
+	}
+	for _, m := range many {
+		sh := make([][]int, m.n)
+		for i := range sh {
+			sh[i] = []int{i % 2} // n1/x and n1/y alternately: all on node n1
+		}
+		scens = append(scens, scen{c16Caps{2, -1, -1}, sh, -1, m.b}, scen{c16Caps{-1, -1, 3}, sh, 1, m.b})
+	}
 	for _, c := range capSets {
 		for _, sh := range shapes {
 			n := 0
@@ -340,8 +353,8 @@ func TestVerifC16ProxySched(t *testing.T) {
 	res.Transitions, res.Traces, res.Evaluations, res.Distinct = execs, execs, execs, outcomes.Len()
 	res.Exhaustive = complete
 	res.MaxCounter("max_schedules_in_one_scenario", maxExecs)
-	res.Bounds = map[string]any{"threads": "2-3 (quick) / 2-4 (thorough)", "evict_calls_per_thread": "1-2", "preemption_bound": env.Pick(2, 3), "scenarios_total": len(scens)}
+	res.Bounds = map[string]any{"threads": "2-3 full scenarios + 5,6 (quick) / 2-4 + 5,6,8 (thorough) single-eviction scenarios", "evict_calls_per_thread": "1-2", "preemption_bound": env.Pick(2, 3), "scenarios_total": len(scens)}
 	res.Rule = "every schedule within the preemption bound; scheduling points at every lock operation of the eviction limiter and around the (fake) API call; caps evaluated at every scheduling point on the evictions accepted by the API; states = distinct (scenario, #accepted, #calls)"
-	res.Assumptions = []string{"5-16 concurrent goroutines are not explored (2-4 are); a check-then-act defect of a counter needs two callers"}
+	res.Assumptions = []string{"2-4 goroutines are explored at preemption bound 2-3; 5-8 goroutines (one eviction each) at preemption bound 0-2 (blocking on the serialising lock already yields every arrival order); 9-16 goroutines are not explored"}
 	env.Emit(res)
 }
